@@ -18,8 +18,12 @@ def trickle_history(rng, n):
     for _ in range(n):
         b = rng.choice(g.buckets)
         q = rng.random()
-        if q < 0.6:
+        if q < 0.52:
             g.op_insert(b)
+        elif q < 0.58:
+            g.op_insert_carrying(b)
+        elif q < 0.63:
+            g.op_bulk_unknown_ids(b)
         elif q < 0.7:
             g.op_bulk(b)
         elif q < 0.8:
